@@ -88,6 +88,10 @@ impl<T: Pay> SW<T> {
             StreamResult::Complete(n) => n,
             StreamResult::Dropped => {
                 self.saw_dropped = true;
+                // "reader dropped" is the host's verdict, never the runtime's own guess
+                if !with(|h| h.shared[self.shared].dropped[cmhost::Dir::R as usize]) {
+                    violate("H-STREAM", what, format!("stream {}: the write reported `Dropped` (reader gone) but the readable end is alive; the host never said so", self.shared));
+                }
                 0
             }
             StreamResult::Cancelled => 0,
